@@ -14,6 +14,10 @@ from .emit import change_classes
 
 INSERT_KINDS = ("ListInsert", "DictInsert", "CallArg")
 
+from .C17 import clone_def
+
+from .C11 import pair_len
+
 
 def check(repo: Repo, rep, tier):
     rep.not_decided = "that the edit script computed for an arbitrary old text / new value yields the right text (alignment, comma and 1-tuple surgery)"
@@ -21,6 +25,8 @@ def check(repo: Repo, rep, tier):
     assign_agree(repo, rep)
     flush(repo, rep)
     same_type(repo, rep)
+    clone_def(repo, rep)
+    pair_len(repo, rep)
     apply_exh(repo, rep)
     ctx_restore(repo, rep)
 
